@@ -138,7 +138,7 @@ impl OovProviderPlugin for RegexOovProvider {
         let end = input_text
             .current_chars()
             .len()
-            .min(offset + self.max_length);
+            .min(offset.saturating_add(self.max_length));
         let text_data = input_text.curr_slice_c(offset..end);
         match regex.find(text_data) {
             None => Ok(0),
